@@ -39,7 +39,7 @@ theorem locFoldFree_of_ref {m : Module} {unit : Nat} {f : Field} (h : refField m
       cases el with
       | scalar k bits req =>
         simp only [Bool.and_eq_true] at h2
-        simp only [h2.1.1.1.1.2, h2.1.1.1.2, Bool.and_self]
+        simp only [h2.1.1.1.1.1.2, h2.1.1.1.1.2, Bool.and_self]
       | struct a b c => cases h2
       | array a b => cases h2
 
